@@ -44,8 +44,9 @@ def main():
         os.makedirs(base)
         r = sh(['git', 'clone', '-q', '/repo', os.path.join(base, 'repo')])
         assert r.returncode == 0, r.stderr
-        r = sh(['cp', '-a', ROOT, os.path.join(base, 'verif')])
-        assert r.returncode == 0, r.stderr
+        # (coq/corr holds transient case files of checks that may be running at this moment)
+        r = sh(['rsync', '-a', '--exclude', 'coq/corr/*', ROOT + '/', os.path.join(base, 'verif') + '/'])
+        assert r.returncode in (0, 24), r.stderr
         while True:
             try:
                 sid = q.get_nowait()
